@@ -150,7 +150,10 @@ class Scene:
                 self._density_field_interpolator = sinterp.LinearNDInterpolator(self._density_data[:,:3],self._density_data[:,3])
 
                 def density_getter(position):
-                    return self._density_field_interpolator(position)
+                    rho = self._density_field_interpolator(position)
+                    if np.ndim(position) == 1: # Single point
+                        return rho.item()
+                    return rho
 
         # Improper specification
         else:
